@@ -110,6 +110,59 @@ def gen(seed, nepisodes, prefix='r', kind='packet'):
         yield {'id': '%s%d' % (prefix, i), 'comp': 'val', 'kind': kind, 'ops': ops}
 
 
+def bit_sweep(seed, nepisodes, prefix='e', kind='packet'):
+    """Equality against every single-bit variant of a value (and one byte more / less of payload): x == y must be
+    false for each of them, in both directions, and != its negation (round6b-4: a comparison that drops some bits)."""
+    rng = random.Random(seed)
+    widths = [('dev', 16), ('st', 8), ('ver', 8), ('seq', 16), ('vid', 16), ('fl', 8), ('seg', 2), ('pt', 8)]
+    for i in range(nepisodes):
+        base = rand_packet(rng)
+        while base.get('empty') or not base.get('pl') or base.get('mt') == 0:
+            base = rand_packet(rng)
+        base['pl'] = base['pl'][:rng.choice([1, 4, 24])]
+        if kind != 'packet':
+            base = {'mt': base['mt'], 'pt': base['pt'], 'pl': base['pl']}
+        ops = [{'op': 'make', 'slot': 1, 'pkt': base}]
+        variants = []
+        for f, w in widths:
+            if f in base:
+                for b in range(w):
+                    q = copy.deepcopy(base)
+                    q[f] ^= 1 << b
+                    if f == 'pt' and q[f] == 0:
+                        continue
+                    variants.append(q)
+        for f in ('ts', 'ifid'):
+            if f in base:
+                for b in range(8 * len(base[f])):
+                    q = copy.deepcopy(base)
+                    q[f] = list(q[f])
+                    q[f][b // 8] ^= 0x80 >> (b % 8)
+                    variants.append(q)
+        for b in range(8 * len(base['pl'])):
+            q = copy.deepcopy(base)
+            q['pl'][b // 8] ^= 0x80 >> (b % 8)
+            variants.append(q)
+        q = copy.deepcopy(base)
+        q['pl'] = q['pl'] + [0]
+        variants.append(q)
+        if len(base['pl']) > 1:
+            q = copy.deepcopy(base)
+            q['pl'] = q['pl'][:-1]
+            variants.append(q)
+        for other in (1, 2, 3, 255):
+            if other != base['mt']:
+                q = copy.deepcopy(base)
+                q['mt'] = other
+                variants.append(q)
+        for q in variants:
+            ops.append({'op': 'make', 'slot': 2, 'pkt': q})
+            ops.append({'op': 'eq', 'a': 1, 'b': 2})
+        ops.append({'op': 'copy', 'dst': 3, 'src': 1})
+        ops.append({'op': 'eq', 'a': 1, 'b': 3})
+        yield {'id': '%s%d' % (prefix, i), 'comp': 'val', 'kind': kind, 'ops': ops}
+
+
 def write(path, episodes):
     n = 0
     with open(path, 'w') as f:
